@@ -136,7 +136,7 @@ def extract_chain(model: Model, qual: str = "serialize.canonical_string") -> Tup
     if any(r.kind != "return" for r in runs):
         return None, "canonical_string raises on some path", fn
     if len(runs) == 1:
-        ch, err = _chain_of(runs[0].value[0], runs[0].value[1])
+        ch, err = _chain_of(runs[0].value[0], runs[0].value[1], runs[0].interp)
         return ch, err, fn
     pw = Piecewise()
     for run in runs:
@@ -162,15 +162,26 @@ def extract_chain(model: Model, qual: str = "serialize.canonical_string") -> Tup
                 conds.append(("strpred", (info["name"], args), bool(val)))
             else:
                 return None, f"condition of kind {info['kind']} is not modelled", fn
-        ch, err = _chain_of(r, v)
+        ch, err = _chain_of(r, v, run.interp)
         if ch is None:
             return None, err, fn
         pw.cases.append((conds, ch))
     return pw, None, fn
 
 
-def _chain_of(r: Any, v: Any) -> Tuple[Optional[Chain], Optional[str]]:
+def _chain_of(r: Any, v: Any, interp: Any = None) -> Tuple[Optional[Chain], Optional[str]]:
     ch = Chain()
+
+    def bound(x: Any, recv: Any) -> Any:
+        """A slice bound as a python int/None; len(recv) - k is the negative index -k."""
+        if isinstance(x, Const) and (x.value is None or isinstance(x.value, int)):
+            return x.value
+        if isinstance(x, IntV) and interp is not None and len(x.lin.coefs) == 1:
+            (var, c), = x.lin.coefs.items()
+            lv = interp.host.len_vars.get(("op", getattr(recv, "id", None)))
+            if c == 1 and lv == var and x.lin.const <= 0:
+                return x.lin.const if x.lin.const < 0 else None
+        raise ValueError
 
     def walk(t: Any) -> Optional[str]:
         if t is v:
@@ -211,10 +222,12 @@ def _chain_of(r: Any, v: Any) -> Tuple[Optional[Chain], Optional[str]]:
                 recv, a, b, c = t.args
                 if not (isinstance(c, Const) and c.value is None):
                     return "stepped slice"
-                if not all(isinstance(x, Const) and (x.value is None or isinstance(x.value, int)) for x in (a, b)):
+                try:
+                    lo_, hi_ = bound(a, recv), bound(b, recv)
+                except ValueError:
                     return "symbolic slice bounds"
                 e = walk(recv)
-                ch.ops.append(("slice", a.value, b.value))
+                ch.ops.append(("slice", lo_, hi_))
                 return e
             if t.op == "json.dumps":
                 args = [a for a in t.args if not isinstance(a, tuple)]
